@@ -121,9 +121,10 @@ func buildReplica(root string, h HistSpec) (*replicaEnv, error) {
 	if err := db.Open(); err != nil {
 		return nil, fmt.Errorf("open litestream db: %w", err)
 	}
+	defer func() { _ = db.Close(ctx) }() // no-op after the explicit Close below; releases the DB on early returns
 	nextID := 1000
 	for i := 1; i <= h.NTx; i++ {
-		if !h.CorruptSrc || i > 1 {
+		if !h.CorruptSrc {
 			tx, err := app.Begin()
 			if err != nil {
 				return nil, err
@@ -152,11 +153,15 @@ func buildReplica(root string, h HistSpec) (*replicaEnv, error) {
 			}
 		} else {
 			// corrupted source: one tiny write to page 1 only (schema cookie) so that there is something to sync
-			if _, err := app.Exec("PRAGMA user_version=7"); err != nil {
-				return nil, err
+			// (every transaction of a corrupted-source history: table writes would have to read the damaged pages)
+			if _, err := app.Exec(fmt.Sprintf("PRAGMA user_version=%d", 7+i)); err != nil {
+				return nil, notApplicable("SQLite cannot write the damaged source database", err)
 			}
 		}
 		if err := db.Sync(ctx); err != nil {
+			if h.CorruptSrc {
+				return nil, notApplicable("litestream cannot sync the damaged source database", err)
+			}
 			return nil, fmt.Errorf("db sync %d: %w", i, err)
 		}
 		if err := db.Replica.Sync(ctx); err != nil {
@@ -253,3 +258,14 @@ func buildBadImageReplica(root string, h HistSpec) (*replicaEnv, error) {
 	env.badImage = bad
 	return env, nil
 }
+
+// errNA marks a history that cannot be built for a reason that lies in the deliberately damaged input
+// itself (SQLite refuses to touch it), not in litestream or the harness: counted, not alarmed.
+type errNA struct {
+	why string
+	err error
+}
+
+func (e *errNA) Error() string                  { return e.why + ": " + e.err.Error() }
+func (e *errNA) Unwrap() error                  { return e.err }
+func notApplicable(why string, err error) error { return &errNA{why, err} }
